@@ -59,6 +59,18 @@ def m_node(p, n, b: dict) -> bool:
                 return False  # two metavariables never bind the same name
             b[p.id] = n.id
             return True
+    if isinstance(p, (ast.ListComp, ast.SetComp, ast.DictComp, ast.GeneratorExp)) and type(p) is type(n) and not b.get('__in_comp__'):
+        # the variables of a comprehension live in its own scope: their metavariables are bound for this comprehension only
+        local = {x.id for g in p.generators for x in ast.walk(g.target) if isinstance(x, ast.Name) and NAME_MV.match(x.id)}
+        local = {k for k in local if k not in b}
+        b2 = dict(b)
+        b2['__in_comp__'] = True
+        if not m_node(p, n, b2):
+            return False
+        for k, v in b2.items():
+            if k not in local and k != '__in_comp__':
+                b[k] = v
+        return True
     if isinstance(p, ast.Name) and isinstance(n, ast.Attribute) and p.id[:1].isupper() and n.attr == p.id and isinstance(n.value, ast.Name):
         return True  # a class named in the pattern may be reached through a module alias in the code (excep.BiogemeError)
     if type(p) is not type(n):
